@@ -69,6 +69,22 @@ def stream_cells(seed, thorough):
                                   pauses=200 if thorough else 60, mwq=8 if fault == "overflow" else 1024, fault=fault, cell=ci,
                                   cbsend=(r // 2) % 2))
                 ci += 1
+    # overflow with a peer that KEEPS DRAINING: small write-queue limits x peer read pacing (slow-but-steady, bursty, fast) x
+    # 1/4/16 flooding senders x epoll mode / batching x plain/TLS; senders flood until the session closes. What the peer got
+    # before EOF must be a strict prefix of the accepted concatenation (torn only at the very end), closed once, reason WriteBackpressure
+    k = 0
+    for mwq in (4, 16, 64, 128):
+        for drain in (1, 2, 3):
+            for rep_ in range(3 if not thorough else 6):
+                r = k + seed
+                et, batch = ((1, 0), (0, 0), (1, 1), (0, 1))[r % 4]
+                cells.append(dict(tls=(r // 4) % 2, tlsmax=(13, 12)[(r // 8) % 2], et=et, batch=batch, threads=(1, 4, 16)[r % 3],
+                                  role=("server", "client")[(r // 3) % 2], sessions=1, dist=(3, 3, 1, 0)[r % 4], permille=(0, 300, 0, 1000)[(r // 2) % 4],
+                                  iocap=0, peerrcvbuf=(8192, 16384, 32768)[r % 3], sndbuf=(4096, 8192)[(r // 5) % 2], rcvbuf=4096, iochunk=65536,
+                                  fin="stop", window=1 << 20, hssends=(0, 1)[r % 2], bytes=64 << 20, rbytes=(0, 20000)[r % 2], pauses=0, mwq=mwq,
+                                  fault="overflow-drain", cell=ci, cbsend=0, drain=drain))
+                ci += 1
+                k += 1
     return cells
 
 
@@ -77,8 +93,8 @@ def cell_args(c, seed, tmp, stallms, watchdogms):
     if c.get("cbsend"):
         c = dict(c, window=min(c["window"], 65536), iochunk=min(c["iochunk"], 2048))  # workers paced by the peer, so they are still sending while onData fires; small read chunks give many callbacks
     for k in ("tls", "tlsmax", "et", "batch", "threads", "role", "sessions", "dist", "permille", "iocap", "peerrcvbuf", "sndbuf", "rcvbuf",
-              "iochunk", "fin", "window", "hssends", "bytes", "rbytes", "pauses", "mwq", "fault", "cell", "cbsend", "rwmin"):
-        a += ["--" + k, c.get(k, 0) if k in ("cbsend", "rwmin") else c[k]]
+              "iochunk", "fin", "window", "hssends", "bytes", "rbytes", "pauses", "mwq", "fault", "cell", "cbsend", "rwmin", "drain"):
+        a += ["--" + k, c.get(k, 0) if k in ("cbsend", "rwmin", "drain") else c[k]]
     return a
 
 
@@ -236,7 +252,7 @@ def run(ctx):
     ctx.extra["stream_cells_per_flavor"] = len(cells)
     ctx.require_obs("cells", "short_writes", "eagain_on_send", "short_reads", "tls_cells_executed", "multi_threaded_sender_cells",
                     "tls_want_read", "tls_want_write", "sends_accepted_before_tls_handshake", "payloads_verified_at_peer",
-                    "reverse_bytes_on_data", "callback_sender_cells", "callback_sends_on_io_thread", "tls_level_triggered_cells_with_read_chunk_below_record_size", "sessions_closed_early_prefix_checked", "engine_backpressure_closes",
+                    "reverse_bytes_on_data", "callback_sender_cells", "callback_sends_on_io_thread", "tls_level_triggered_cells_with_read_chunk_below_record_size", "overflow_closes_with_draining_peer", "sessions_closed_early_prefix_checked", "engine_backpressure_closes",
                     "cut_cases_with_cut", "cut_cases_in_drain_loop", "cut_cases_with_cut_tx_tls", "cut_cases_with_cut_rx_tls",
                     "cut_cases_with_cut_rx_tcp")
     if thorough:
